@@ -105,6 +105,19 @@ impl HashCache {
     }
 }
 
+#[cfg(bsv_verif)]
+impl Transaction {
+    /// Verification hook (only with --cfg bsv_verif): read-only view of the three memoised sighash hashes
+    /// in the order (hash_inputs, hash_sequence, hash_outputs).
+    pub fn verif_hash_cache(&self) -> [Option<Vec<u8>>; 3] {
+        [
+            self.hash_cache.hash_inputs.as_ref().map(|h| h.to_bytes()),
+            self.hash_cache.hash_sequence.as_ref().map(|h| h.to_bytes()),
+            self.hash_cache.hash_outputs.as_ref().map(|h| h.to_bytes()),
+        ]
+    }
+}
+
 impl Transaction {
     /**
      * Calculates the SIGHASH buffer and then signs it
